@@ -347,7 +347,7 @@ fn scale(w: &mut Worker) {
             );
         }
     }
-    let counts: Vec<usize> = w.tier.pick(vec![10, 300], vec![10, 300, 3000, 30000]);
+    let counts: Vec<usize> = with_thresholds_usize(w.tier.pick(vec![10, 300], vec![10, 300, 3000, 30000]), w.tier.pick(1024, 16384));
     for &n in &counts {
         // a flat array of n numbers and an object of n members
         let arr = format!("[{}]", (1..=n).map(|i| i.to_string()).collect::<Vec<_>>().join(","));
@@ -436,10 +436,39 @@ fn documents_in_sequence(w: &mut Worker) {
     }
 }
 
+/// Between the two halves of a round trip the script applies a command of another kind to the handle
+/// (an array command to bytes, a map command to an array ...): that command reports an error - and the
+/// value behind the handle is what it was, so the second half gives back the original.
+fn wrong_kind_in_between(w: &mut Worker) {
+    let wrong: [&str; 12] = [
+        "array_push ${h} x", "array_pop ${h}", "array_clear ${h}", "array_set ${h} 0 x", "array_remove ${h} 0", "map_put ${h} k v", "map_remove ${h} k", "map_clear ${h}",
+        "map_load_properties ${h} a=1", "set_put ${h} x", "set_remove ${h} x", "set_clear ${h}",
+    ];
+    // (name, first half producing ${h}, second half producing ${back}, expected, kinds of commands that are NOT wrong for it)
+    let trips: [(&str, &str, &str, &str, &str); 6] = [
+        ("bytes", "h = string_to_bytes \"text é\"", "back = bytes_to_string ${h}", "text é", ""),
+        ("base64", "h = base64_decode dGV4dA==", "back = base64_encode ${h}", "dGV4dA==", ""),
+        ("json-array", "h = json_parse --collection [1,[2],{\\\"k\\\":3}]", "back = json_encode --collection ${h}", "[\"1\",[\"2\"],{\"k\":\"3\"}]", "array_"),
+        ("json-object", "h = json_parse --collection {\\\"a\\\":[1],\\\"b\\\":\\\"x\\\"}", "back = json_encode --collection ${h}", "{\"a\":[\"1\"],\"b\":\"x\"}", "map_"),
+        ("properties", "h = map\nmap_put ${h} key \"the value\"", "back = map_to_properties ${h}", "key=the\\ value", "map_"),
+        ("set-to-array", "h = set_new only", "a2 = set_to_array ${h}\nback = array_join ${a2} ,", "only", "set_"),
+    ];
+    for (name, first, second, expected, own_kind) in trips {
+        for cmd in wrong {
+            if !own_kind.is_empty() && cmd.starts_with(own_kind) {
+                continue;
+            }
+            let text = format!("{}\nr = {}\n{}\nafter = set reached", first, cmd, second);
+            scale_case(w, &format!("wrong-kind-in-between {} then {:?}", name, cmd), &text, &[("r", Some("false".into())), ("back", Some(expected.to_string())), ("after", Some("reached".into()))]);
+        }
+    }
+}
+
 pub fn worker(w: &mut Worker) {
     let tier = w.tier;
     scale(w);
     documents_in_sequence(w);
+    wrong_kind_in_between(w);
     let mut s = Session::new();
     macro_rules! run {
         ($cj:expr, $nt:expr, $class:expr, $body:expr) => {{
@@ -610,7 +639,7 @@ pub fn crash_sig(_case: &Value, kind: &str) -> String {
     kind.to_string()
 }
 
-pub const RULE: &str = "texts: every string up to the length bound over {a e-acute emoji NUL LF SP = U+FEFF} through string_to_bytes/bytes_to_string and base64_encode/base64_decode (bytes compared in the handle table as well); integers: every n in 0..=bound plus 2^k-1,2^k,2^k+1 for k<=64 through hex_encode/hex_decode; JSON: every document of the stated depth with width<=2 over leaves {\"a\",\"a.b\",\"\",1,1.5,true,null} plus 14 number leaves at the edges of the i64/u64/f64 ranges (numbers must keep their exact decimal value) and keys {k,a.b,'a b',x[0]} (depth 3 over a covering subset of depth-2 shapes) through json_parse --collection / json_encode --collection compared (as JSON values) with the documented normalisation, then release -r must free every handle; properties: every 1-entry map with key length 1..2 and value length 0..bound over {a SP = : # ! \\\\ e-acute LF}, every 2-entry map over length-1 keys/values plus a few non-BMP entries, through map_to_properties/map_load_properties. Non-trivial: non-ASCII or NUL text, n>255, container documents, every properties case. states = distinct (kind, size class) outcomes; transitions = round trips executed. Scale cases: texts of 4095/65537 (thorough 1000003) bytes, plain and with a two-byte character across the middle, through the bytes and base64 round trips (and the length of the base64 text); JSON arrays and objects of 10/300 (thorough 30000) members and arrays nested 10/60/101/127 deep (127 is the deepest document the parser accepts) through json_parse --collection / json_encode --collection; maps of as many entries through the properties text. Documents in sequence: 2..6 documents parsed into one variable, their handles kept in an array / a map / other variables, then encoded from there. The wide one-character alphabet and every control character as a text, a JSON string / key / item, a properties key and value";
+pub const RULE: &str = "texts: every string up to the length bound over {a e-acute emoji NUL LF SP = U+FEFF} through string_to_bytes/bytes_to_string and base64_encode/base64_decode (bytes compared in the handle table as well); integers: every n in 0..=bound plus 2^k-1,2^k,2^k+1 for k<=64 through hex_encode/hex_decode; JSON: every document of the stated depth with width<=2 over leaves {\"a\",\"a.b\",\"\",1,1.5,true,null} plus 14 number leaves at the edges of the i64/u64/f64 ranges (numbers must keep their exact decimal value) and keys {k,a.b,'a b',x[0]} (depth 3 over a covering subset of depth-2 shapes) through json_parse --collection / json_encode --collection compared (as JSON values) with the documented normalisation, then release -r must free every handle; properties: every 1-entry map with key length 1..2 and value length 0..bound over {a SP = : # ! \\\\ e-acute LF}, every 2-entry map over length-1 keys/values plus a few non-BMP entries, through map_to_properties/map_load_properties. Non-trivial: non-ASCII or NUL text, n>255, container documents, every properties case. states = distinct (kind, size class) outcomes; transitions = round trips executed. Scale cases: texts of 4095/65537 (thorough 1000003) bytes, plain and with a two-byte character across the middle, through the bytes and base64 round trips (and the length of the base64 text); JSON arrays and objects of 10/300 (thorough 30000) members and arrays nested 10/60/101/127 deep (127 is the deepest document the parser accepts) through json_parse --collection / json_encode --collection; maps of as many entries through the properties text. Documents in sequence: 2..6 documents parsed into one variable, their handles kept in an array / a map / other variables, then encoded from there. The wide one-character alphabet and every control character as a text, a JSON string / key / item, a properties key and value. Wrong kind in between: 12 commands of another kind applied to the handle between the two halves of 6 round trips (bytes, base64, JSON array, JSON object, properties, set): they report an error and the second half gives back the original";
 pub const ASSUMPTIONS: &[&str] = &["values are handed to the commands as already-bound arguments (no '$' or '%' in the alphabets)", "JSON equality is serde_json value equality (object key order is not significant)"];
 pub const EXHAUSTIVE: bool = true;
 pub const WALL_CAP_S: (u64, u64) = (50, 1500);
